@@ -96,6 +96,11 @@ class Config:
             return [", ".join(rendered)]
         return [", ".join(rendered[i] for i in grp) for grp in self.split if grp]
 
+    def attr_text(self):
+        """the features as ONE attribute's content ('' for the empty configuration: `#[enum_tools()]` is legal)"""
+        ls = self.attr_lines()
+        return ls[0] if ls else ""
+
     def key(self):
         return "|".join(self.attr_lines())
 
